@@ -11,7 +11,7 @@ From HW Require Import Word Packet Mem Portable Spec X86 Neon.
 From HW.Facts Require Import RustLite.
 From HWGen Require Import SrcPortable SrcPacket SrcNeonFull.
 From HW.Refine Require Import Logical Codec PortableRefine PortableCodec StreamRefine Generic NeonRefine SourceTie SourceTieCkpt SourceTieWasmFull SourceTieWasmBytes SourceTieNeonFull SourceTieNeonBytes SourceTieNeonState SourceTieNeonAppend SourceTieNeonCkpt.
-From HW.Properties Require Import SourceLevel.
+From HW.Properties Require Import SourceLevel SourceLevelWasm.
 Import ListNotations.
 Local Open Scope N_scope.
 
@@ -124,6 +124,15 @@ Corollary SRCN_source_agrees_with_portable_source : forall p p' w k0 k1 k2 k3 ds
   nsrc_hash p w (k0,k1,k2,k3) ds = src_hash p' w (k0,k1,k2,k3) ds.
 Proof. intros. rewrite SRCN_source_is_highwayhash by assumption. rewrite SRC_source_is_highwayhash. reflexivity. Qed.
 
+(* the two SIMD source texts against each other: aarch64.rs and wasm.rs, both interpreted, give the same digest *)
+Corollary SRCN_source_agrees_with_wasm_source : forall p p' w k0 k1 k2 k3 ds,
+  wlanesb (k0,k1,k2,k3) = true -> all_bytes ds = true ->
+  nsrc_hash p w (k0,k1,k2,k3) ds = wsrc_hash p' w (k0,k1,k2,k3) ds.
+Proof.
+  intros. rewrite SRCN_source_is_highwayhash by assumption.
+  rewrite (SRCW_source_is_highwayhash p' w k0 k1 k2 k3 ds) by assumption. reflexivity.
+Qed.
+
 (* ---- checkpoints, at the level of the source text of aarch64.rs *)
 (* C14: the 164 bytes are encode of the logical state — hence the same bytes the interpreted portable.rs produces for a state with
    the same logical state (C03/C06: checkpoints are interchangeable between backends) *)
@@ -191,6 +200,7 @@ Print Assumptions SRCN_source_continue.
 Print Assumptions SRCN_source_is_highwayhash.
 Print Assumptions SRCN_source_streaming_invariance.
 Print Assumptions SRCN_source_agrees_with_portable_source.
+Print Assumptions SRCN_source_agrees_with_wasm_source.
 Print Assumptions SRCN_source_checkpoint_canonical.
 Print Assumptions SRCN_source_checkpoint_interchangeable.
 Print Assumptions SRCN_source_restore_total.
